@@ -99,7 +99,9 @@ var c09pieces = []string{"a", "b", "_", "1", "Z", " ", "\t", "\n", "\r\n", "\r",
 var c09runes = []rune{'a', 'b', ' ', '\n', '\r', 'é', '€', '😀', 'x', 0x7f, 0x80, 0xff, utf8.RuneError, '_'}
 var c09exprs = []string{"a+", "[ab]+", "\\s+", "é|€", "fo+", "[^a]", "a|ab", "(a)(b)?", ".", "\\w+", "(?s).", "[\\x00-\\x{10FFFF}]", "\\pL+", "a*b", "(\\d)(\\D)?",
 	// a preferred alternative whose end lies far ahead and a short fallback; an optional tail after a long run
-	"/\\*[^*]*\\*/|/", "[0-9]+(?:\\s*px)?", "\"[^\"]*\""}
+	"/\\*[^*]*\\*/|/", "[0-9]+(?:\\s*px)?", "\"[^\"]*\"",
+	// expressions the user anchored himself: a leading ^ binds to the first branch of a top-level alternation only
+	"^a|b", "^[ab]+|é", "^(a)|(b)"}
 
 func c09exec(j run.Job, a *run.Acc) {
 	r := rand.New(rand.NewSource(j.Seed))
@@ -465,7 +467,7 @@ func init() {
 		Finish: func(tier string, a *run.Acc, cov map[string]any) string {
 			cov["rule"] = "case = one file (pieces: ASCII, '_', digits, space, tab, LF, FF, CRLF, lone CR, 2/3/4-byte runes, truncated runes, 0xff, one piece in five an arbitrary byte 0-255; family byte-sweep: each of the 256 byte values after / before / at the end of six words; family long: files of up to ~200 KB made of tokens of hundreds to tens of thousands of bytes, examined at up to 400 positions - ends, token starts, neighbours of the multiples of 256/4096/32768, random - with arguments of 255-7000 bytes; a third of the long files are written to disk and loaded with text.ReadFile) at a base offset varied by 0-3 preceding files, one case in 20 (a third of the long ones) after a file of 64 KiB ... 2^40 bytes (and an optional following file). " +
 				"At EVERY position 0..len (long: the sample): Remaining, IsEOF, ReadRune (14 runes), MatchString/MatchWord (substrings at the cursor, one-bit mutations, over-long strings ending past EOF), " +
-				"ReadRegexp/ReadRegexpSubmatch (18 expressions, oracle = regexp package anchored with \\A on the suffix), Readf (contract-honouring functions: value as long as, shorter than, or absent for what was read), SkipWhitespaces in 4 modes " +
+				"ReadRegexp/ReadRegexpSubmatch (21 expressions, oracle = regexp package anchored with \\A on the suffix), Readf (contract-honouring functions: value as long as, shorter than, or absent for what was read), SkipWhitespaces in 4 modes " +
 				"are compared with loop-and-compare specifications: match => new = old + matched length <= EOF and returned bytes equal the file's, mismatch => old position; an out-of-bounds access shows as a panic. " +
 				"non-trivial = non-empty file; distinct = (raw content, base offset)"
 			if a.Counters["positions"] == 0 {
